@@ -38,6 +38,13 @@ def node(kind, **kw):
 
 
 def new(st, kind, **kw):
+    if kind in ("text", "doctype"):
+        # nodes the tree builder never holds a handle to: their ids come from a separate (negative) space, so that options
+        # which add or drop such a node do not renumber the handles the builder sees
+        st["hidden"] = st.get("hidden", 0) - 1
+        h = st["hidden"]
+        st["nodes"][h] = node(kind, **kw)
+        return h
     h = st["next"]
     st["next"] += 1
     st["nodes"][h] = node(kind, **kw)
@@ -174,7 +181,7 @@ def ts_create_element(m, a, c):
 def ts_create_comment(m, a, c):
     st = state(m)
     h = new(st, "comment", text=list(deref(a[1]).ch if not isinstance(a[1], Tendril) else a[1].ch))
-    st["calls"].append(("create_comment", h))
+    st["calls"].append(("create_comment", h, Tendril(list(st["nodes"][h]["text"]))))
     return h
 
 
@@ -190,7 +197,7 @@ def ts_create_pi(m, a, c):
 def ts_append(m, a, c):
     st = state(m)
     p, child = H(a[1]), a[2]
-    st["calls"].append(("append", p, child.variant, child.f[0] if child.variant == "AppendNode" else None))
+    st["calls"].append(("append", p, child.variant, child.f[0] if child.variant == "AppendNode" else Tendril(text_of(child))))
     if not known(st, p, "append"):
         return UNIT
     if st["nodes"][p]["kind"] not in ("document", "element", "fragment"):
@@ -208,7 +215,7 @@ def ts_append(m, a, c):
 def ts_append_before_sibling(m, a, c):
     st = state(m)
     sib, child = H(a[1]), a[2]
-    st["calls"].append(("append_before_sibling", sib, child.variant, child.f[0] if child.variant == "AppendNode" else None))
+    st["calls"].append(("append_before_sibling", sib, child.variant, child.f[0] if child.variant == "AppendNode" else Tendril(text_of(child))))
     if not known(st, sib, "append_before_sibling"):
         return UNIT
     sn = st["nodes"][sib]
@@ -241,7 +248,7 @@ def ts_append_based_on_parent_node(m, a, c):
 @model("<Sink as TreeSink>::append_doctype_to_document")
 def ts_append_doctype(m, a, c):
     st = state(m)
-    st["calls"].append(("append_doctype_to_document",))
+    st["calls"].append(("append_doctype_to_document",) + tuple(Tendril(list(deref(x).ch if not isinstance(x, Tendril) else x.ch)) for x in a[1:4]))
     st["doctypes"] += 1
     if st["doctypes"] > 1:
         bad(st, "append_doctype_to_document: a second doctype is appended")
